@@ -9,11 +9,45 @@ from . import common
 JOBS = {"quick": 4, "thorough": 16}
 
 
+KF7 = "abort-raised-by-a-backoff-callback-ends-the-run-without-an-aborted-event"
+
+
+def _aborted_from_a_backoff_callback(ctx, sc, entry, recs, stats):
+    """Runs in which the sleeper / sleep handler / strategy raised AbortRetryError.  The unchanged tree ends such a run with the abort but
+    emits no `aborted` event (except on execute()'s result-caused path): known finding KF7, recognised ONLY in this shape - the fault
+    fired in this call, the caller received that very AbortRetryError, and the one thing wrong with the event stream is the missing
+    terminal event.  Anything else is reported under its own key."""
+    f = sc["fault"]
+    for rec in recs:
+        v = View(rec, sc)
+        found = list(O.o_events(v, stats))
+        kind, val = rec.final
+        shape = (
+            rec.fault_fired
+            and kind == "raise"
+            and val is rec.objs.get("fault")
+            and type(val).__name__ == "AbortRetryError"
+            and {k for k, _ in found} == {"missing-terminal"}
+        )
+        if shape:
+            ctx.cnt["runs_aborted_from_a_backoff_callback_without_an_aborted_event"] += 1
+            ctx.viol(KF7, f"[{entry} call#{rec.idx}] {f['cb']} raised AbortRetryError; the run ended with it; metric events {[m[1] for m in v.all_metric()]}", common.payload(sc, entry, rec.idx))
+            continue
+        if rec.fault_fired and not found:
+            ctx.cnt["runs_aborted_from_a_backoff_callback_with_an_aborted_event"] += 1
+        for key, msg in found:
+            ctx.viol(key, f"[{entry} call#{rec.idx}] {msg}", common.payload(sc, entry, rec.idx))
+
+
 def _one(ctx, sc, entry, stats, sample=False):
     recs, h, w = rig.run(sc, entry)
     ctx.inc("runs")
     ctx.inc("calls", len(recs))
-    common.check_recs(ctx, sc, entry, recs, [O.o_events], stats)
+    f = sc.get("fault")
+    if f and f.get("kind") == "cb" and f.get("exc") == "AbortRetryError" and f.get("cb") in ("sleeper", "handler", "strategy"):
+        _aborted_from_a_backoff_callback(ctx, sc, entry, recs, stats)
+    else:
+        common.check_recs(ctx, sc, entry, recs, [O.o_events], stats)
     for rec in recs:
         v = View(rec, sc)
         mets = v.all_metric()
@@ -108,6 +142,16 @@ def runs_started_inside_a_hook(ctx, rng, n):
 def work(ctx, tier):
     stats = {}
     rng = common.rng_for(ctx, "main")
+    # a backoff-phase callback stops the run with AbortRetryError (an interruptible sleeper, a handler that gives up): an abort like any other
+    for k in range((400 if tier == "quick" else 8000) // ctx.nshards):
+        sc = gen.rand_scenario(rng, max_attempts=(2, 5), p_special=0.0, p_budget=0.2, p_handler=0.5, p_abort=0.0, p_breaker=0.0, ncalls=(1, 2))
+        sc["place"]["hooks"] = rng.choice(["call", "policy", "both"])
+        sc["fault"] = {"kind": "cb", "cb": rng.choice(["sleeper", "handler", "strategy", "sleeper"]), "at": rng.choice([0, 0, 1]), "exc": "AbortRetryError"}
+        if sc["place"].get("sleeper") == "none":
+            sc["place"]["sleeper"] = "call"
+        for e in common.pick_entries(rng, rig.ENTRIES, 3):
+            _one(ctx, sc, e, stats)
+        ctx.inc("scenarios_aborted_from_a_backoff_callback")
     runs_started_inside_a_hook(ctx, common.rng_for(ctx, "nested"), (200 if tier == "quick" else 4000) // ctx.nshards)
     for i, sc in enumerate(gen.sweep_scenarios(max_len=3 if tier == "quick" else 4, stride=4 if tier == "quick" else 1)):
         if i % ctx.nshards != ctx.shard:
@@ -179,6 +223,7 @@ def conclude(ctx):
             floors[f"terminal:{t}/{fam}"] = (ctx.cnt.get(f"terminal:{t}/{fam}", 0), 20)
     floors["timelines_checked"] = (ctx.cnt["timelines_checked"], 500)
     floors["runs_started_inside_a_hook"] = (ctx.cnt["runs_started_inside_a_hook"], 100)
+    floors["runs_aborted_from_a_backoff_callback (with or without the event)"] = (ctx.cnt["runs_aborted_from_a_backoff_callback_without_an_aborted_event"] + ctx.cnt["runs_aborted_from_a_backoff_callback_with_an_aborted_event"], 100)
     floors["breaker_events_checked"] = (ctx.cnt["breaker_events_checked"], 500)
     floors["retry_events"] = (ctx.cnt["retry_events"], 3000)
     floors["scenarios_with_raising_metric_hook"] = (ctx.cnt["scenarios_with_raising_metric_hook"], 100)
